@@ -13,6 +13,7 @@ import (
 	"sync"
 	"sync/atomic"
 	"time"
+	_ "time/tzdata"
 
 	"github.com/jonboulle/clockwork"
 	saml2 "github.com/russellhaering/gosaml2"
@@ -83,7 +84,25 @@ func (s *SpyClock) Now() time.Time {
 	}
 	s.mu.Lock()
 	defer s.mu.Unlock()
-	return s.T
+	return InSomeZone(s.T)
+}
+
+var clockZones = func() []*time.Location {
+	zs := []*time.Location{time.UTC, time.UTC, time.FixedZone("IST", 19800), time.FixedZone("", -11*3600)}
+	for _, n := range []string{"America/New_York", "Europe/Berlin", "Pacific/Chatham", "Australia/Lord_Howe"} {
+		l, err := time.LoadLocation(n) // from the embedded time/tzdata
+		if err != nil {
+			panic(err)
+		}
+		zs = append(zs, l)
+	}
+	return zs
+}()
+
+// InSomeZone presents the instant t in a location determined by t itself: a
+// clock is free to report any location, and only the instant may matter.
+func InSomeZone(t time.Time) time.Time {
+	return t.In(clockZones[mon.Hash64(fmt.Sprint(t.UnixNano()))%uint64(len(clockZones))])
 }
 func (s *SpyClock) Set(t time.Time) {
 	s.mu.Lock()
@@ -292,10 +311,31 @@ func (p *SPPool) Get(now time.Time, store ...*sim.Cert) (*saml2.SAMLServiceProvi
 	return sp, p.clk, p.st
 }
 
-// SPSource returns a fresh SP for even case indices and the pooled one for odd ones.
+// SPSource returns a fresh SP for even case indices, the pooled one for k = 1 mod 4 and a
+// struct copy of the (already used) pooled one for k = 3 mod 4.
 func (p *SPPool) SPSource(k int, now time.Time, store ...*sim.Cert) (*saml2.SAMLServiceProvider, *SpyClock, *SpyStore) {
 	if k%2 == 0 {
 		return NewSP(now, store...)
 	}
+	if k%4 == 3 && p.sp != nil {
+		return p.Copy(now, store...)
+	}
 	return p.Get(now, store...)
+}
+
+// Copy returns a struct copy of the pooled provider (applications derive per-tenant
+// providers that way), configured as NewSP(now, store...) would: it keeps the
+// original's clock object but has its own certificate store, while the original is
+// left trusting only an attacker's certificate. Whatever the library remembered
+// inside the original must not follow the copy.
+func (p *SPPool) Copy(now time.Time, store ...*sim.Cert) (*saml2.SAMLServiceProvider, *SpyClock, *SpyStore) {
+	p.Get(now, store...)
+	p.st.Roots = []*x509.Certificate{sim.Wide(sim.K("atk1"), now).X509}
+	cp := *p.sp //nolint:govet // quiescent: no call is in flight, the embedded lock is free
+	st := &SpyStore{}
+	for _, c := range store {
+		st.Roots = append(st.Roots, c.X509)
+	}
+	cp.IDPCertificateStore = st
+	return &cp, p.clk, st
 }
